@@ -53,6 +53,7 @@ type hist struct {
 	// followed by another blob in the saved buffer is corrupted by reload - known
 	// finding - and the re-save of such a graph cannot be compared byte for byte.)
 	fileBlobs bool
+	autosave  string // every-edit | random | never
 }
 
 func (h *hist) logf(format string, a ...any) {
